@@ -763,6 +763,43 @@ def groups_pairing(prog: Program) -> RuleResult:
             res.fail(construct, f"this path {'links' if links else 'does not link'} but returns `{rv}`", mod, last)
         else:
             res.ok(construct, f"links={links}, counter decrements={decs}, returns {rv}")
+    # a link joins two roots: in every method but find (path compression) and the constructor, a store
+    # `self.parent[K] = V` has K and V bound to the results of two different find() calls
+    seen_links: Dict[str, int] = {}
+    for mname, meth in methods.items():
+        if mname in ("find", "__init__"):
+            continue
+        for st in walk_no_nested(meth):
+            if not isinstance(st, ast.Assign):
+                continue
+            for tgt in st.targets:
+                if not (isinstance(tgt, ast.Subscript) and dotted(tgt.value) == "self.parent"):
+                    continue
+                seen_links[short(st, 50)] = seen_links.get(short(st, 50), 0) + 1
+                construct = f"{modname}:DisjointSet.{mname}/link-roots[{short(st, 50)}]" + (f"#{seen_links[short(st, 50)]}" if seen_links[short(st, 50)] > 1 else "")
+                srcs = []
+                for part in (tgt.slice, st.value):
+                    src = part
+                    if isinstance(part, ast.Name):
+                        got = reaching(meth, part.id, st)
+                        src = got if got is not None and not isinstance(got, Opaque) else part
+                    srcs.append(src)
+                reps = [isinstance(x, ast.Call) and dotted(x.func) == "self.find" for x in srcs]
+                if linkers.get(mname) == "raw":
+                    res.ok(construct, "a raw linker: its callers are checked below")
+                elif not all(reps):
+                    which = short(tgt.slice) if not reps[0] else short(st.value)
+                    res.fail(
+                        construct,
+                        f"`{short(st, 60)}` links `{which}`, which is not the result of find(): hanging a non-root element under another "
+                        "root detaches it (and everything below it) from its own group while the rest of that group keeps the old root",
+                        mod,
+                        st,
+                    )
+                elif ast.dump(srcs[0]) == ast.dump(srcs[1]):
+                    res.fail(construct, f"`{short(st, 60)}` links a root to itself", mod, st)
+                else:
+                    res.ok(construct, "both sides are find() results")
     # a raw linker is only ever given representatives: results of find() on the same object, in the same function
     for mod2, qual2, caller in prog.functions():
         for call in walk_no_nested(caller):
